@@ -131,6 +131,19 @@ def run(spec):
     if repr(F) != r0:
         return outcome(name, "violated", detail="input form mutated", witness={"structural": "mutated"})
     sample = f"{spec['space']} {spec.get('elem', spec.get('n'))} {kind}: {str(F)[:160]}"
+    if blocks is not None:
+        # shape of the result: one block per sub-space (rank 1) / an n x n table (rank 2); entries are forms or None
+        def is_block(b):
+            return b is None or isinstance(b, ufl.Form) or b == 0
+
+        good = isinstance(blocks, (tuple, list)) and len(blocks) == nblocks and (
+            all(is_block(b) for b in blocks) if linear else
+            all(isinstance(row, (tuple, list)) and len(row) == nblocks and all(is_block(b) for b in row) for row in blocks))
+        if not good:
+            return outcome(name, "violated", detail=f"extract_blocks returned a structure that is not one block per sub-space "
+                           f"({'rank 1: ' + str(nblocks) if linear else 'rank 2: ' + str(nblocks) + ' x ' + str(nblocks)}): "
+                           f"{type(blocks).__name__} of {[type(b).__name__ for b in blocks][:6]}", sample=sample,
+                           witness={"structural": "block table shape"})
     idxs = [(i, None) for i in range(nblocks)] if linear else list(itertools.product(range(nblocks), repeat=2))
     for (i, j) in idxs:
         ring.reset()
